@@ -95,7 +95,7 @@ def run_timers(prop, tier, seed, cap=None, kcap=None):
         random.Random(seed).shuffle(behs)
         behs = behs[:cap]
     # key-reuse focused configurations: exhaustive, every final state exported
-    for kc in ("MCTimers_keysf.cfg", "MCTimers_keysv.cfg", "MCTimers_long.cfg", "MCTimers_near.cfg", "MCTimers_sub.cfg"):
+    for kc in ("MCTimers_keysf.cfg", "MCTimers_keysv.cfg", "MCTimers_long.cfg", "MCTimers_near.cfg", "MCTimers_sub.cfg", "MCTimers_long2.cfg", "MCTimers_r75.cfg"):
         st, tr, bad, text = _tlc_mc("MCTimers.tla", kc, "tmk-%s" % prop)
         out["states"] += st
         out["transitions"] += tr
